@@ -94,12 +94,21 @@ fn acts(n: &Node, thorough: bool, jumps: &[u64]) -> Vec<Action> {
             trailing.push(0);
             docs.push(("stake(trailing-byte)".into(), trailing, true));
             docs.push(("stake(empty-doc)".into(), vec![], true));
+            // a consistent stake of nothing: first output 0 SYM, the coin's value returned as change
+            docs.push(("stake(zero-amount)".into(), stake_doc_bytes(1, cur + 1, cur + 2, 0), true));
             }
             for (i, (label, data, sym_first)) in docs.iter().enumerate() {
-                let t = stake_tx(n, s, mc, data.clone(), *sym_first, i as u8);
+                let mut t = stake_tx(n, s, mc, data.clone(), *sym_first, i as u8);
+                if label == "stake(zero-amount)" {
+                    let sv = s.1.coin_data.value.0;
+                    t.outputs = vec![out_t(0, Denom::Sym), out_t(sv, Denom::Sym), out_t(mc.1.coin_data.value.0, Denom::Mel)];
+                    if n.model.fee_multiplier > 0 {
+                        pay_min_fee(&mut t, n.model.fee_multiplier);
+                    }
+                }
                 v.push(Action::Batch { label: label.clone(), txs: vec![t.clone()], expect_ok: false });
                 // spend attempts of both outputs in the same batch, both orders
-                if !second && (label.contains("start=") || label.contains("amount")) {
+                if !second && (label.contains("start=") || label.contains("amount")) && label != "stake(zero-amount)" {
                     for idx in [0u8, 1] {
                         let id = t.output_coinid(idx);
                         let o = &t.outputs[idx as usize];
